@@ -16,6 +16,8 @@ PROPS["C13"] = {
              "and with the defining dictionary, is monitor + correspondence over generated templates (depth <= 4) and a seeded sample of the shipped dictionaries' groups.",
     "note": "Lean kernel + propext/Classical.choice/Quot.sound; Group.Read modelled with a fuel counter that is never exhausted (2*len+4)",
     "rule": "templates of depth <= 4 with optional members, counts 0-3, six body positions, read back without dictionary; groups of the nine shipped "
-            "dictionaries (seeded sample) read back with app / transport+app dictionary; distinct = (position, template, count) / (dict, msgType, group, count)",
+            "dictionaries (seeded sample) read back with app / transport+app dictionary; the shipped dictionaries' groups WITH nested groups, densely nested "
+            "(nested members present with probability 4/5 and never empty, plain members 1/6: sibling nested groups back to back, 1-2 entries per level); "
+            "distinct = (position, template, count) / (dict, msgType, group, count)",
     "assumptions": ["entries start with the delimiter and use template tags only; template tags distinct; no following field carries a template tag"],
 }
